@@ -369,7 +369,7 @@ def _dimension_clauses():
   from vlib.core import rerun_any_replay
   _rr = rerun_any_replay(run_tendency_sampled, select='explicit')
   _rs = rerun_any_replay(run_shallow_water)
-  out = equivariance_contracts.dimension_clauses()
+  out = equivariance_contracts.dimension_clauses() + equivariance_contracts.held_suarez_clauses('C12')
   for c in out:
     c.replay = _rs if 'shallow' in c.name else _rr
   return out
